@@ -1256,6 +1256,33 @@ fn enc_encode(ch: &mut Chooser, ctx: &mut Ctx, obj: &mut dyn DynEncoder, st: &mu
     if leak {
         st.must_reset = true;
         ctx.count("fault.F18.result_leaked_then_reset");
+        // two more calls before the reset (see the decoder): the round is either still there or gone, not half of each
+        // (not on the wrapper layer: its API-layer twin drops its own result, so the two legitimately differ here)
+        if probed.is_ok() && st.kind.layer != Layer::Rs && ch.chance("enc.leak.probe", 1, 2) {
+            ctx.count("probe.calls_between_leak_and_reset");
+            let shard = gen_shard(st.data_seed ^ 0x1eac, 0, 0, b);
+            let first = ctx.guarded(true, || obj.add(&shard));
+            let intact = match first {
+                Ok(Err(Error::TooManyOriginalShards { original_count })) if original_count == k => true,
+                Ok(Ok(())) => false,
+                other => {
+                    return ctx.viol(&["C06", "C05"], "verdict", "verdict/after-leak/add".into(), format!("{}{:?}: after a leaked result, one more add -> {other:?}; expected TooManyOriginalShards (round still there) or Ok (round gone)", st.kind.name(), st.cfg), true);
+                }
+            };
+            let second = ctx.guarded(true, || obj.encode().map(|res| res.recovery_iter().take(st.cfg.1 + 1).map(<[u8]>::to_vec).collect::<Vec<_>>()));
+            let ok = match (&second, intact) {
+                // (which bytes a second encode returns is not judged: the first one transformed the working space in place)
+                (Ok(Ok(_)), true) => true,
+                (Ok(got), false) => match got {
+                    Ok(_) => k == 1,
+                    Err(e) => k != 1 && *e == Error::TooFewOriginalShards { original_count: k, original_received_count: 1 },
+                },
+                _ => false,
+            };
+            if !ok {
+                return ctx.viol(&["C06", "C05"], "verdict", "verdict/after-leak/encode".into(), format!("{}{:?}: after a leaked result the encoder answered one more add with {} and then encode() with {:?}: neither 'the round is still there' nor 'the round is gone'", st.kind.name(), st.cfg, if intact { "TooManyOriginalShards" } else { "Ok" }, second.as_ref().map(|r| r.as_ref().map(Vec::len))), true);
+            }
+        }
     }
     if b % 64 != 0 {
         ctx.count("probe.partial_last_block");
@@ -2265,6 +2292,40 @@ fn dec_decode(ch: &mut Chooser, ctx: &mut Ctx, obj: &mut dyn DynDecoder, st: &mu
     if leak {
         st.must_reset = true;
         ctx.count("fault.F18.result_leaked_then_reset");
+        // Half of the leaks are followed by two more calls before the reset. What a decoder holds after a leaked
+        // result is not specified, but it must be one consistent state: either the round is still there (the shards
+        // are still registered: a repeated add is a duplicate, a repeated decode has enough shards) or it is
+        // gone (the add is accepted and decode sees exactly that one shard) - not a mixture of the two.
+        if !st.adds.is_empty() && st.kind.layer != Layer::Rs && ch.chance("dec.leak.probe", 1, 2) {
+            ctx.count("probe.calls_between_leak_and_reset");
+            let a = st.adds[ch.pick_usize("dec.leak.which", st.adds.len())].clone();
+            let first = ctx.guarded(true, || if a.is_rec { obj.add_recovery(a.index, &a.data) } else { obj.add_original(a.index, &a.data) });
+            let dup = if a.is_rec { Error::DuplicateRecoveryShardIndex { index: a.index } } else { Error::DuplicateOriginalShardIndex { index: a.index } };
+            let intact = match first {
+                Ok(Err(e)) if e == dup => true,
+                Ok(Ok(())) => false,
+                other => {
+                    return ctx.viol(&["C06", "C05"], "verdict", "verdict/after-leak/add".into(), format!("{}{:?}: after a leaked result, adding shard {}{} again -> {other:?}; expected the duplicate error (round still there) or Ok (round gone)", st.kind.name(), st.cfg, if a.is_rec { "R" } else { "O" }, a.index), true);
+                }
+            };
+            let second = ctx.guarded(true, || obj.decode().map(|res| res.restored_original_iter().take(k + 1).map(|(i, s)| (i, s.to_vec())).collect::<BTreeMap<usize, Vec<u8>>>()));
+            let ok = match (&second, intact) {
+                // (which bytes a second decode restores is not judged: the first one transformed the working space in place)
+                (Ok(Ok(_)), true) => true,
+                (Ok(got), false) => {
+                    // exactly one shard registered
+                    let enough = k == 1;
+                    match got {
+                        Ok(_) => enough,
+                        Err(e) => !enough && *e == Error::NotEnoughShards { original_count: k, original_received_count: usize::from(!a.is_rec), recovery_received_count: usize::from(a.is_rec) },
+                    }
+                }
+                _ => false,
+            };
+            if !ok {
+                return ctx.viol(&["C06", "C05"], "verdict", "verdict/after-leak/decode".into(), format!("{}{:?}: after a leaked result the decoder answered the repeated add of shard {}{} with {} and then decode() with {:?}: neither 'the round is still there' nor 'the round is gone'", st.kind.name(), st.cfg, if a.is_rec { "R" } else { "O" }, a.index, if intact { "the duplicate error" } else { "Ok" }, second.as_ref().map(|r| r.as_ref().map(|m| m.keys().copied().collect::<Vec<_>>()))), true);
+            }
+        }
     }
     st.last_round = st.adds.iter().map(|a| (a.is_rec, a.index)).collect();
     st.clear_round();
